@@ -130,3 +130,27 @@ Theorem C01_source_finite_bounds_are_model :
   (forall i, g_finite_start i = fstart i) /\ (forall i, g_finite_end i = fend i).
 Proof. exact (conj g_finite_start_eq g_finite_end_eq). Qed.
 Print Assumptions C01_source_finite_bounds_are_model.
+
+(* Difference._sweep and MemoryTimeline._fetch_static as the code has them (tie C, extended) *)
+From CG Require Import Model.Loop Proofs.GenEq4 Proofs.GenEq5.
+
+Theorem C01_source_difference_is_model : forall fuel src sub_streams,
+  (length (merge_by lt_fwd sub_streams) < fuel)%nat ->
+  g_diff_sweep fuel src sub_streams = RDone (diff_sweep src sub_streams).
+Proof. exact g_diff_sweep_eq. Qed.
+Print Assumptions C01_source_difference_is_model.
+
+(* coverage of the difference, stated of the code text: source AND NOT subtractors *)
+Theorem C01_source_difference_cover : forall fuel src sub_streams,
+  let subs := merge_by lt_fwd sub_streams in
+  (length subs < fuel)%nat -> Forall wf_ivl src -> disjoint_sorted src -> Forall wf_ivl subs -> sorted_start subs ->
+  exists l, g_diff_sweep fuel src sub_streams = RDone l /\
+            forall t, covers l t = covers src t && negb (covers subs t).
+Proof. exact src_difference_cover. Qed.
+Print Assumptions C01_source_difference_cover.
+
+Theorem C01_source_stored_complete : forall store a b rv x,
+  sorted_key store = true -> In x store -> wf_ivl x -> Stored.overlaps_win a b x ->
+  In x (g_mem_fetch_static store a b rv).
+Proof. exact src_stored_complete. Qed.
+Print Assumptions C01_source_stored_complete.
